@@ -205,6 +205,9 @@ class SeqGen:
                 if raw_markers:
                     kw = [["m1", [r.choice([0, 1]) if r.random() < 0.2 else 0 for _ in range(N)]],
                           ["m2", [r.choice([0, 1]) if r.random() < 0.2 else 0 for _ in range(N)]]]
+                    if (N + len(ops) + len(chans)) % 4 == 0:
+                        # further marker arrays ("'m1', 'm2', 'm3', etc."): they are delayed like every other array
+                        kw.append(["m3", [1 if j % 3 == 0 else 0 for j in range(N)]])
                 ops.append({"op": "el.addArray", "id": eid, "ch": ch, "wfm": wfm, "SR": enc(SR), "kw": kw})
             else:
                 bid = self.g.fresh("b")
